@@ -17,6 +17,7 @@ pub mod c10;
 pub mod c11;
 pub mod c12;
 pub mod c13;
+pub mod c13_rogue;
 pub mod c14;
 pub mod c15;
 pub mod c16;
